@@ -560,7 +560,10 @@ func (s *JavaFullListener) EnterMethodCall(ctx *parser.MethodCallContext) {
 	if targetCtx.GetChild(0) != nil {
 		switch x := targetCtx.GetChild(0).(type) {
 		case *parser.MethodCallContext:
-			targetType = x.Identifier().GetText()
+			// this(...) / super(...) as the target of a call have no identifier
+			if x.Identifier() != nil {
+				targetType = x.Identifier().GetText()
+			}
 		}
 	}
 
